@@ -64,12 +64,13 @@ Proof. exact attrs_noninterference_refuted. Qed.
 Print Assumptions c05_attrs_noninterference_refuted.
 
 (** ... and by the translation filters, which call .gettext on whatever the
-    name `translations` resolves to, template-assigned variables included:
+    name `translations` resolves to, template-assigned variables included, as
+    long as it has an attribute `gettext` (anything else: LiquidTypeError):
     the value returned by a Python method of a context object is rendered. *)
 Theorem c05_translations_provider_refuted :
   exists d d', proto_eq d d' /\ hook_free_ns d' = true
                /\ render false w_translations d = Ok (lit "S3CR3T")
-               /\ render false w_translations d' = PyExc AttributeError.
+               /\ render false w_translations d' = LErr LiquidTypeError None.
 Proof. exact translations_provider_refuted. Qed.
 Print Assumptions c05_translations_provider_refuted.
 
